@@ -45,8 +45,10 @@ fn coe_desc(mailbox_size: u16) -> DeviceDescription {
 
 fn make(case: &Value) -> Result<Env, Obj> {
     let size = get_u64(case, "mailbox_size", 128);
-    if !(16..=1024).contains(&size) {
-        return Err(unsupported(case, "mailbox_size must be 16..=1024"));
+    // scripted (hostile) replies need no working CoE server: any mailbox that can hold a header will do
+    let min = if get_str(case, "op", "") == "hostile" { 6 } else { 16 };
+    if !(min..=1024).contains(&size) {
+        return Err(unsupported(case, "mailbox_size must be 16..=1024 (6..=1024 for scripted replies)"));
     }
     let desc = coe_desc(size as u16);
     let dut = build_device("dut", &desc, DcKind::None, false);
